@@ -257,7 +257,8 @@ pub fn actions(al: &Alpha) -> Vec<(Act, u8)> {
         for f in 1..al.frames[sz as usize].len() as u8 {
             v.push((Act::Map { page: pi, frame: f, flags: 0, parent: 0, sched: 0 }, 1));
         }
-        let nfl = if sz == 0 { LEAF_IN_DOMAIN } else { LEAF_IN_DOMAIN - 1 };
+        // index 3 carries bit 7: the PAT bit of a 4 KiB leaf, and for a huge page the (redundant but legal) PS bit itself
+        let nfl = LEAF_IN_DOMAIN;
         for f in 1..nfl {
             v.push((Act::Map { page: pi, frame: 0, flags: f, parent: 0, sched: 0 }, 1));
         }
